@@ -221,6 +221,23 @@ let runs args = match args with
     String.concat "|" (List.map one (match cases with L l -> l | _ -> failwith "cases"))
   | _ -> failwith "runs args"
 
+(* value reader (for judging the implementation's own results) *)
+let rec to_value = function
+  | A "none" -> VNone
+  | A "fun" -> VFun FLen
+  | L [A "bool"; b] -> VBool (to_bool b)
+  | L [A "str"; s] -> VStr (to_list to_nat s)
+  | L [A "int"; n] -> VInt (to_nat n)
+  | L [A "list"; l] -> VList (to_list to_value l)
+  | L [A "tuple"; l] -> VTuple (to_list to_value l)
+  | L [A "obj"; c; fs; s; e] -> VObj (to_nat c, to_list to_value fs, (to_nat s, to_nat e))
+  | L [A "node"; k; l] -> VNode (to_nat k, to_list to_value l)
+  | _ -> failwith "value"
+(* (spans lo hi value) -> true|false *)
+let spans_cmd = function
+  | [lo; hi; v] -> pb (spans_ordered (to_nat lo) (to_nat hi) (to_value v))
+  | _ -> failwith "spans args"
+
 (* flags of every node, preorder *)
 let rec children = function
   | Seq es | Choice es | Skip es | Longest es -> es
@@ -241,6 +258,7 @@ let dispatch = function
   | L (A "c09judge" :: args) -> c09judge args
   | L (A "runs" :: args) -> runs args
   | L (A "flags" :: args) -> flags_cmd args
+  | L (A "spans" :: args) -> spans_cmd args
   | _ -> failwith "unknown command"
 
 let () =
